@@ -437,12 +437,12 @@ template<class T> static void convergence_case(vh::Rng& top, Kind k, int L, doub
         p.lam = par1;
         p.delta = par2;
         // regularisation lam^k / delta against the data term sum_{i<k} lam^i (unit input power): relative bias
-        // (lam^k/delta) / sum lam^i must fall below 1e-3 (squared: 1e-6); x3 margin, at least 3 L samples
-        N = 3 * L + 20;
+        // (lam^k/delta) / sum lam^i must fall below 1e-3 (squared: 1e-6); x10 margin, at least 6 L + 40 samples
+        N = 6 * L + 40;
         for (long long kk = 1;; ++kk) {
             const double reg = std::pow(p.lam, (double)kk) / p.delta;
             const double dat = p.lam < 1 ? (1 - std::pow(p.lam, (double)kk)) / (1 - p.lam) : (double)kk;
-            if (reg / dat < 1e-3 / 3) { N = std::max<long long>(N, kk + 2 * L); break; }
+            if (reg / dat < 1e-3 / 10) { N = std::max<long long>(N, kk + 4 * L); break; }
         }
     }
     int msys;
@@ -507,8 +507,8 @@ template<class T> static void convergence(vh::Rng& top, bool thorough) {
     for (int L : Ls) {
         for (double lam : LAMS)
             for (double dl : DELTAS) {
-                const bool slow = lam == 1.0 && dl < 1;   // 3e4..3e5 samples
-                if (slow && L > (thorough ? 32 : 8)) continue;
+                const bool slow = lam == 1.0 && dl < 1;   // 1e5..1e6 samples
+                if (slow && L > (thorough ? 16 : 8) && !(thorough && L == 64 && dl == 0.1)) continue;
                 convergence_case<T>(top, K_RLS, L, lam, dl, (L <= 4 && !slow && lam >= 0.98 && dl == 1.0) ? 1 : -1);
             }
         for (int t = 0; t < (thorough ? 6 : 2); ++t) {
